@@ -281,7 +281,9 @@ def stepBoth (st : Both) (ws : List String) : Both × String :=
   -- (the answer of the redeploy itself still belongs to the epoch in which the undeployed caller acted)
   let d69line := d69 || st.d69
   let d45line := d45 || st.d45
-  let tag := if d69line && (byUndeployed || !d45line) then "D69" else if d45line then "D45" else ""
+  -- D69 is a difference between the copies only while the code does not check the sender (`refuseU = false`); once it
+  -- does (repaired), a difference in a line of an undeployed caller can only stem from the D45 situation
+  let tag := if !st.c.refuseU && d69line && (byUndeployed || !d45line) then "D69" else if d45line then "D45" else ""
   ({ c := c, sp := if isRedeploy && clean then { c with specMode := true, refuseU := true } else sp, d45 := d45, d69 := d69 },
    if xc == xs then xc else s!"{xc} #spec {xs} #kf {tag}")
 
